@@ -105,6 +105,55 @@ pub fn read_deviations(rep: &mut Report, root: &std::path::Path, prop: &str, wor
 }
 
 /// `which`: path prefix below the data directory whose reads are numbered ("blk" = the blk files, "index/" = the LevelDB index).
+/// "Exit status 0 implies that every output file of the run is present under its final name ... and that no *.tmp file
+/// remains" - also when there is nothing to put into it: ranges whose outputs are all spent again or carry no address (the
+/// unspent and balances dumps then consist of their header line), read with --start at their first height.
+fn nothing_to_list(rep: &mut Report, root: &std::path::Path) {
+    use refmodel::chain::coinbase;
+    use refmodel::ser::{Tx, TxIn, TxOut};
+    let btc = coin("bitcoin");
+    for variant in 0..2u8 {
+        let mut cb = ChainBuilder::at(btc, 7);
+        let data = |t: &[u8]| TxOut { value: 0, script: refmodel::script::op_return(t) };
+        if variant == 0 {
+            let c1 = coinbase(7, 31, vec![TxOut { value: 50, script: refmodel::script::p2pkh(&refmodel::script::h20(190)) }]);
+            let id = c1.txid();
+            cb.push_raw(vec![c1]);
+            cb.push_raw(vec![coinbase(8, 32, vec![data(b"no address")]), Tx { version: 1, segwit: false, inputs: vec![TxIn::spend(id, 0)], outputs: vec![data(b"burnt")], locktime: 0, wide: 0 }]);
+        } else {
+            cb.push_raw(vec![coinbase(7, 33, vec![data(b"a"), TxOut { value: 5, script: vec![0x51] }])]);
+            cb.push_raw(vec![coinbase(8, 34, vec![data(b"b")])]);
+        }
+        let world = World::simple(btc, &cb.blocks, 7);
+        let wk = Worker::new(root, 860 + variant as usize);
+        if let Err(m) = wk.materialise(&world) {
+            return rep.machinery(m);
+        }
+        for cbn in CBS {
+            let spec = RunSpec::new("bitcoin", cbn).range(Some(7), None);
+            let r = wk.run(&spec);
+            rep.states += 1;
+            rep.transitions += 1;
+            rep.nontrivial.insert(h8(format!("nothing-to-list{}{}", variant, cbn).as_bytes()));
+            rep.count("nothing-to-list-runs", 1);
+            if r.code != Some(0) {
+                continue; // whether such a run may fail is not C10's business (C07 / C08 say what it must produce)
+            }
+            let want: Vec<String> = match cbn {
+                "csvdump" => ["blocks", "transactions", "tx_in", "tx_out"].iter().map(|t| format!("{}-7-8.csv", t)).collect(),
+                "unspentcsvdump" => vec!["unspent-7-8.csv".into()],
+                _ => vec!["balances-7-8.csv".into()],
+            };
+            let missing: Vec<&String> = want.iter().filter(|n| !r.files.contains_key(*n)).collect();
+            let tmp: Vec<&String> = r.files.keys().filter(|n| n.ends_with(".tmp")).collect();
+            if !missing.is_empty() || !tmp.is_empty() {
+                rep.disagree("exit-0-but-output-file-missing:nothing-to-list", format!("{} over a range with {}: exit 0, final-named files missing {:?}, temporary files left {:?}", cbn, if variant == 0 { "every output spent again" } else { "no output carrying an address" }, missing, tmp), replay_case(&world, &spec, json!({"must": "exit 0 => every output file under its final name, no *.tmp"}), &r, &wk.dir));
+            }
+        }
+        wk.cleanup();
+    }
+}
+
 /// The undisturbed run of a world fails on this tree. That is an observation about the subject, not about this harness, and
 /// C10 has a clause for it: a run that exits non-zero leaves no final-named file. The enumerations (which deviate from the
 /// fault-free call sequence) cannot be built for this world; the evidence says so.
@@ -767,6 +816,7 @@ pub fn run() -> Report {
     }
     rep.count("phase-ms:fault-and-crash-cases", t_phase.elapsed().as_millis() as u64);
     let t_phase = std::time::Instant::now();
+    nothing_to_list(&mut rep, &root);
     read_deviations(&mut rep, &root, "C10", &small, &small, "plain", &CBS);
     {
         // blocks larger than the reader's buffer (40 KiB and 100 KiB): one block = several read() calls
